@@ -108,16 +108,26 @@ Definition morsel_key_ok (k : text) : bool :=
   negb (mem_text (flat_map py_lower k) reserved_keys) && is_legal_key k.
 
 (* the attributes set_cookie takes from the application *)
+Record cflags := mkFl { f_maxage : option N; f_httponly : bool; f_secure : bool }.
 Record morsel := mkMorsel {
   m_key : text; m_coded : text;
-  m_domain : option text; m_path : option text; m_samesite : option text }.
+  m_domain : option text; m_path : option text; m_samesite : option text;
+  m_flags : cflags }.
+Definition flag_part (label : string) (b : bool) : list text := if b then [t label] else [].
+Definition maxage_part (a : option N) : list text :=
+  match a with Some n => [t "Max-Age=" ++ dec n] | None => [] end.
 Definition attr_part (label : string) (a : option text) : list text :=
   match a with Some v => [t label ++ [61] ++ v] | None => [] end.
-(* Morsel.OutputString(None): key=coded, then the non-empty attributes sorted by key *)
+(* Morsel.OutputString(None): key=coded, then the non-empty attributes sorted by key
+   (domain, httponly, max-age, path, samesite, secure) *)
 Definition output_string (m : morsel) : text :=
   join (t "; ") ((m_key m ++ [61] ++ m_coded m)
-                 :: attr_part "Domain" (m_domain m) ++ attr_part "Path" (m_path m)
-                 ++ attr_part "SameSite" (m_samesite m)).
+                 :: attr_part "Domain" (m_domain m)
+                 ++ flag_part "HttpOnly" (f_httponly (m_flags m))
+                 ++ maxage_part (f_maxage (m_flags m))
+                 ++ attr_part "Path" (m_path m)
+                 ++ attr_part "SameSite" (m_samesite m)
+                 ++ flag_part "Secure" (f_secure (m_flags m))).
 
 (* ---------- handler + connection state ---------- *)
 Record st := mkSt {
@@ -191,6 +201,19 @@ Definition set_header (n v : pstr) (s : st) : res * st :=
       end
   end.
 
+(* an int value: str(value), returned without the character check *)
+Definition set_header_num (n : pstr) (v : N) (s : st) : res * st :=
+  match n with
+  | Byt _ => (Err EType, s)
+  | Str nt => (Ok, with_hdrs (h_set nt (dec v) (hdrs s)) s)
+  end.
+(* clear_header: `if name in self._headers: del self._headers[name]` (a bytes name is never "in") *)
+Definition clear_header (n : pstr) (s : st) : res * st :=
+  match n with
+  | Byt _ => (Ok, s)
+  | Str nt => (Ok, if h_mem nt (hdrs s) then with_hdrs (d_del (normalize_u nt) (hdrs s)) s else s)
+  end.
+
 Definition add_header (n v : pstr) (s : st) : res * st :=
   match convert_header_value v with
   | None => (Err EValue, s)
@@ -216,7 +239,7 @@ Definition check_attr (a : option pstr) : res :=
 Definition attr_val (a : option pstr) : option text :=
   match a with Some (Str (c :: r)) => Some (c :: r) | _ => None end.
 
-Definition set_cookie (n v : pstr) (domain path samesite : option pstr) (s : st) : res * st :=
+Definition set_cookie (n v : pstr) (domain path samesite : option pstr) (fl : cflags) (s : st) : res * st :=
   match native_str n with
   | None => (Err EUniDec, s)
   | Some name =>
@@ -229,7 +252,7 @@ Definition set_cookie (n v : pstr) (domain path samesite : option pstr) (s : st)
       match check_attr path with Err e => (Err e, s) | Ok =>
       match check_attr samesite with Err e => (Err e, s) | Ok =>
         if negb (morsel_key_ok name) then (Err ECookie, s) else
-        let m := mkMorsel name (cookie_quote value) (attr_val domain) (attr_val path) (attr_val samesite) in
+        let m := mkMorsel name (cookie_quote value) (attr_val domain) (attr_val path) (attr_val samesite) fl in
         (* fix 9b29e11 / cb7d7c0: the serialized cookie must be a sendable header value NOW; on
            failure the new entry is dropped and an earlier cookie of that name is put back
            (at the end of the jar) *)
@@ -246,7 +269,8 @@ Definition set_cookie (n v : pstr) (domain path samesite : option pstr) (s : st)
     end
   end.
 
-(* ---------- HTTP1Connection.write_headers (HTTP/1.1 GET, connection kept alive, empty chunk) ---------- *)
+(* ---------- HTTP1Connection.write_headers (server side; HTTP/1.0 or 1.1, GET or HEAD, any request
+   Connection header; empty chunk) ---------- *)
 Definition no_body_code (c : N) : bool := (c =? 204) || (c =? 304) || ((100 <=? c) && (c <? 200)).
 Definition all_digits (x : text) : bool := match x with [] => false | _ => forallb (in_range 48 57) x end.
 Definition latin1 (x : text) : option text := if forallb (fun c => c <? 256) x then Some x else None.
@@ -259,16 +283,42 @@ Fixpoint sequence_o {A} (l : list (option A)) : option (list A) :=
 Definition has_cr_lf (l : text) : bool := existsb (fun c => (c =? 13) || (c =? 10)) l.
 Definition header_line (kv : text * text) : text := fst kv ++ [c_colon; c_sp] ++ snd kv.
 
+(* ---------- the request the response answers (what write_headers reads from the connection) ---------- *)
+Inductive conn_hdr := CNone | CKeepAlive | CClose.   (* request Connection header, lower-cased *)
+Record ctx := mkCtx {
+  v11 : bool;          (* request version HTTP/1.1 (else HTTP/1.0) *)
+  is_head : bool;      (* request method HEAD (else GET) *)
+  rconn : conn_hdr }.
+(* _read_message: _disconnect_on_finish = not _can_keep_alive(start_line, headers), GET / HEAD request *)
+Definition disconnect0 (x : ctx) : bool :=
+  if v11 x then match rconn x with CClose => true | _ => false end
+  else match rconn x with CKeepAlive => false | _ => true end.
+Definition k_conn := t "Connection".
+Definition v_close := t "close".  Definition v_keepalive := t "Keep-Alive".
+Definition apply_sets (sets : list (text * text)) (h : list (text * list text)) :=
+  fold_left (fun h kv => h_set (fst kv) (snd kv) h) sets h.
+(* the header assignments write_headers makes itself, in order:
+   Connection: close / Connection: Keep-Alive / Transfer-Encoding: chunked *)
+Definition framing_sets (x : ctx) (c : N) (h0 : list (text * list text)) : list (text * text) :=
+  let body_ok := negb (no_body_code c) in
+  let chunking := v11 x && negb (is_head x) && body_ok && negb (h_mem k_clen h0) in
+  let s1 := if v11 x && disconnect0 x then [(k_conn, v_close)] else [] in
+  let h1 := apply_sets s1 h0 in
+  let disc := disconnect0 x || (negb (v11 x) && negb (is_head x) && body_ok && negb (h_mem k_clen h1)) in
+  let s2 := if negb (v11 x) && (match rconn x with CKeepAlive => true | _ => false end) && negb disc
+            then [(k_conn, v_keepalive)] else [] in
+  let s3 := if chunking then [(k_te, v_chunked)] else [] in
+  s1 ++ s2 ++ s3.
+
 (* result: exception, or (the bytes written, _expected_content_remaining is a non-zero number) *)
-Definition write_headers (c : N) (rsn : text) (h0 : list (text * list text))
+Definition write_headers (x : ctx) (c : N) (rsn : text) (h0 : list (text * list text))
   : exn + (text * bool * list (text * list text)) :=
   match utf8_encode (t "HTTP/1.1 " ++ dec c ++ [c_sp] ++ rsn) with
   | None => inl EUniEnc
   | Some start =>
-    let chunking := negb (no_body_code c) && negb (h_mem k_clen h0) in
-    let h := if chunking then h_set k_te v_chunked h0 else h0 in
+    let h := apply_sets (framing_sets x c h0) h0 in
     let expect : option (option bool) :=      (* None = parse_int raised; Some None = no length *)
-      if no_body_code c then Some (Some false)
+      if is_head x || no_body_code c then Some (Some false)
       else match h_get k_clen h with
            | None => Some None
            | Some x => if all_digits x then Some (Some (negb (forallb (N.eqb 48) x))) else None
@@ -308,18 +358,18 @@ Fixpoint add_cookies (cs : list (text * morsel)) (h : list (text * list text))
   end.
 
 (* returns (outcome, state, expected-content-remaining is non-zero) *)
-Definition flush_headers (s : st) : res * st * bool :=
+Definition flush_headers (x : ctx) (s : st) : res * st * bool :=
   match add_cookies (cookies s) (hdrs s) with
   | (Err e, h) => (Err e, mkSt (code s) (reason s) h (cookies s) true (wire s), false)
   | (Ok, h) =>
-      match write_headers (code s) (reason s) h with
+      match write_headers x (code s) (reason s) h with
       | inl e => (Err e, mkSt (code s) (reason s) h (cookies s) true (wire s), false)
       | inr (w, nz, h') => (Ok, mkSt (code s) (reason s) h' (cookies s) true (wire s ++ w), nz)
       end
   end.
 
 (* RequestHandler.redirect(url, permanent) -> set_status, set_header("Location", utf8(url)), finish() *)
-Definition redirect (url : pstr) (permanent : bool) (s : st) : res * st :=
+Definition redirect (x : ctx) (url : pstr) (permanent : bool) (s : st) : res * st :=
   if written s then (Err EException, s) else
   let c := if permanent then 301 else 302 in
   let s1 := snd (set_status c None s) in
@@ -332,7 +382,7 @@ Definition redirect (url : pstr) (permanent : bool) (s : st) : res * st :=
         (* finish(): 301/302 are not 204/304/1xx; Content-Length: 0 unless one is present *)
         let s3 := if h_mem k_clen (hdrs s2) then s2
                   else with_hdrs (h_set k_clen (dec 0) (hdrs s2)) s2 in
-        match flush_headers s3 with
+        match flush_headers x s3 with
         | (Err e, s4, _) => (Err e, s4)
         | (Ok, s4, nz) => if nz then (Err EOutput, s4) (* HTTP1Connection.finish: short body *)
                           else (Ok, s4)
@@ -344,32 +394,36 @@ Inductive op :=
 | SetHeader (n v : pstr)
 | AddHeader (n v : pstr)
 | SetStatus (c : N) (r : option pstr)
-| SetCookie (n v : pstr) (domain path samesite : option pstr)
+| SetCookie (n v : pstr) (domain path samesite : option pstr) (fl : cflags)
+| SetHeaderNum (n : pstr) (v : N)      (* set_header(name, <int>) *)
+| ClearHeader (n : pstr)
 | Redirect (url : pstr) (permanent : bool).
 
-Definition step (o : op) (s : st) : res * st :=
+Definition step (x : ctx) (o : op) (s : st) : res * st :=
   match o with
   | SetHeader n v => set_header n v s
   | AddHeader n v => add_header n v s
   | SetStatus c r => set_status c r s
-  | SetCookie n v d p ss => set_cookie n v d p ss s
-  | Redirect u p => redirect u p s
+  | SetCookie n v d p ss fl => set_cookie n v d p ss fl s
+  | SetHeaderNum n v => set_header_num n v s
+  | ClearHeader n => clear_header n s
+  | Redirect u p => redirect x u p s
   end.
 
 (* the application swallows exceptions and carries on *)
-Fixpoint run_ops (ops : list op) (s : st) : list res * st :=
+Fixpoint run_ops (x : ctx) (ops : list op) (s : st) : list res * st :=
   match ops with
   | [] => ([], s)
-  | o :: ops' => let '(r, s1) := step o s in
-                 let '(rs, s2) := run_ops ops' s1 in (r :: rs, s2)
+  | o :: ops' => let '(r, s1) := step x o s in
+                 let '(rs, s2) := run_ops x ops' s1 in (r :: rs, s2)
   end.
 
 (* the whole scenario: fresh handler, the calls, then flush() unless the headers were written.
    final outcome: None = no final flush was made *)
-Definition run (env : text * text) (ops : list op) : list res * option res * text :=
-  let '(rs, s) := run_ops ops (init env) in
+Definition run (env : text * text) (x : ctx) (ops : list op) : list res * option res * text :=
+  let '(rs, s) := run_ops x ops (init env) in
   if written s then (rs, None, wire s)
-  else let '(r, s', _) := flush_headers s in (rs, Some r, wire s').
+  else let '(r, s', _) := flush_headers x s in (rs, Some r, wire s').
 
 (* ================= the other application-facing routes into write_headers ================= *)
 
@@ -384,9 +438,9 @@ Fixpoint build (hs : list hop) (h : list (text * list text)) : list res * list (
   | HAdd n v :: r => let '(x, h1) := h_add n v h in
                      let '(rs, h') := build r h1 in (x :: rs, h')
   end.
-Definition run_raw (c : N) (rsn : text) (hs : list hop) : list res * res * text :=
+Definition run_raw (x : ctx) (c : N) (rsn : text) (hs : list hop) : list res * res * text :=
   let '(rs, h) := build hs [] in
-  match write_headers c rsn h with
+  match write_headers x c rsn h with
   | inl e => (rs, Err e, [])
   | inr (w, _, _) => (rs, Ok, w)
   end.
@@ -420,7 +474,7 @@ Definition wsgi_headers (server : text) (c : N) (hs : list (text * text)) : list
              if mem_text (t "content-type") names then a else a ++ [(k_ctype, v_ctype)] in
   if mem_text (t "server") names then hs1 else hs1 ++ [(k_server, server)].
 (* every failure is an exception inside the handle_request coroutine: nothing is written *)
-Definition run_wsgi (server : text) (status : text) (hs : list (text * text)) : text :=
+Definition run_wsgi (x : ctx) (server : text) (status : text) (hs : list (text * text)) : text :=
   match split_sp status with
   | None => []
   | Some (cs, rsn) =>
@@ -429,7 +483,7 @@ Definition run_wsgi (server : text) (status : text) (hs : list (text * text)) : 
     | Some c =>
       match add_all (wsgi_headers server c hs) [] with
       | None => []
-      | Some h => match write_headers c rsn h with inl _ => [] | inr (w, _, _) => w end
+      | Some h => match write_headers x c rsn h with inl _ => [] | inr (w, _, _) => w end
       end
     end
   end.
